@@ -5,7 +5,7 @@ from vcheck import DiffProperty
 
 ARITY = {"new": 2, "after": 2, "before": 2, "add": 3, "nadd": 3, "ins": 3, "nins": 3, "unlink": 1, "move": 2,
          "lmove": 2, "clone": 1, "lclone": 1, "tclone": 1, "clear": 1, "destroy": 1, "swap": 2, "switch": 2,
-         "relink": 1, "trav": 3, "end": 0}
+         "relink": 1, "trav": 3, "find": 3, "next": 2, "end": 0}
 NAMES = ["-", "a", "b", "c"]
 
 
@@ -273,6 +273,8 @@ class Tracker:
             return True
         if op in ("relink", "trav"):
             return self.alive(int(o[-1]))
+        if op in ("find", "next"):
+            return self.alive(int(o[1]))
         if op == "end":
             return True
         raise ValueError(op)
@@ -317,31 +319,29 @@ class C14(DiffProperty):
                "node that is still linked or an ancestor of the position; merging lists of the same tree); the same guard "
                "is evaluated by harness, model and specification"]
     level = "proof"
-    level_text = ("proof (partial only for gnode_swap/gnode_switch): Coq theorems C14_step_refines_forest / "
-                  "C14_history_refines_forest_partial / C14_wf_preserved_partial / C14_wf_links / C14_released_once / "
-                  "C14_cleanup_releases_all / C14_clone_equal_shape state, for every heap that represents an ordered forest "
-                  "(any number of nodes, depth, names) and every history over new, gnode_after/before, gnode_add/node_add "
-                  "and gnode_insert/node_insert at every position code (by position and by name), unlink, mpt_node_move "
-                  "(merge of lists with overlapping names, recursively, from a child list or a local list), node/list/tree "
-                  "clone, clear, destroy, relink, the three traversal orders and the final clean-up, that the transcribed "
-                  "pointer mechanism never dereferences NULL or freed memory, never frees twice, returns what the forest "
-                  "operation returns and after EVERY step has exactly the links the resulting forest dictates — which implies "
-                  "every explicit link rule (next/prev agree, every child names its parent, children = list head, parent and "
-                  "next chains end, pointers name live cells) —, that every id is in the forest once or freed once and after "
-                  "the clean-up all ids are freed exactly once, and that a cloned list has the source's shape at every depth "
-                  "with parent links; gnode_swap and gnode_switch (not among the operations the property names) are modelled "
-                  "and specified but their refinement is not proved; the model is tied to the code on every run by "
-                  "differential execution of histories under ASan/UBSan/LSan with a full raw-link dump and an independent "
-                  "well-formedness verdict after every operation")
-    level_note = ("partial: the history theorems carry the hypothesis 'Forall proved ops'; only gnode_swap and gnode_switch "
-                  "are outside 'proved' and are covered by the correspondence run and the specification oracle only. Trusted: "
-                  "Coq kernel; hand transcription of mptcore/node/*.c (validated by the correspondence run, not verified); "
-                  "names are modelled as 4 codes with equality (identifier charset/length variants of mpt_node_locate are "
-                  "not modelled); malloc failure, level-order traversal, node_find/node_next not modelled; the guards of "
-                  "the history language (insert only unlinked nodes, never below themselves; merge lists of different "
-                  "top-level lists) are callers' obligations, evaluated identically by harness, model and specification; "
-                  "extraction (ExtrOcamlBasic) and OCaml driver; harness. Theorems are closed under the global context (no axioms).")
-    technique = "Coq refinement proof (pointer heap -> ordered forests) + differential correspondence check"
+    level_text = ("proof: Coq theorems C14_step_refines_forest / C14_history_refines_forest / C14_wf_preserved / "
+                  "C14_wf_links / C14_released_once / C14_cleanup_releases_all / C14_clone_equal_shape state, for every heap "
+                  "that represents an ordered forest (any number of nodes, depth, names) and EVERY history of the history "
+                  "language — new, gnode_after/before, gnode_add/node_add and gnode_insert/node_insert at every position "
+                  "code (by position and by name), unlink, mpt_node_move (merge of lists with overlapping names, "
+                  "recursively, from a child list or a local list), node/list/tree clone, clear, destroy, gnode_swap, "
+                  "gnode_switch (also of adjacent siblings), gnode_relink, the three traversal orders and the final "
+                  "clean-up — that the transcribed pointer mechanism never dereferences NULL or freed memory, never frees "
+                  "twice, returns what the forest operation returns and after EVERY step has exactly the links the "
+                  "resulting forest dictates — which implies every explicit link rule (next/prev agree, every child names "
+                  "its parent, children = list head, parent and next chains end, pointers name live cells) —, that every "
+                  "id is in the forest once or freed once and after the clean-up all ids are freed exactly once, and that "
+                  "a cloned list has the source's shape at every depth with parent links; no hypothesis restricts the "
+                  "operations; the model is tied to the code on every run by differential execution of histories under "
+                  "ASan/UBSan/LSan with a full raw-link dump and an independent well-formedness verdict after every operation")
+    level_note = ("Trusted: Coq kernel; hand transcription of mptcore/node/*.c (validated by the correspondence run, not "
+                  "verified); names are modelled as 4 codes with equality (identifier charset/length variants of "
+                  "mpt_node_locate are not modelled); malloc failure, level-order traversal, node_find/node_next not "
+                  "modelled; the guards of the history language (insert only unlinked nodes, never below themselves; merge "
+                  "only lists of different top-level lists; swap/switch only nodes that are not ancestor-related) are "
+                  "callers' obligations, evaluated identically by harness, model and specification; extraction "
+                  "(ExtrOcamlBasic) and OCaml driver; harness. Theorems are closed under the global context (no axioms).")
+    technique = "Coq refinement proof (pointer heap -> ordered forests, zipper frame rule, every operation) + differential correspondence check"
     assumptions = ["malloc succeeds", "callers insert only unlinked nodes and never below themselves (guards of the history language)"]
 
     harness_args = ("10",)   # per-case timeout in seconds (a cyclic list makes the library loop for ever)
@@ -420,7 +420,8 @@ class C14(DiffProperty):
                 for o in body[k + 1:]:
                     o = list(o)
                     for j in range(1, len(o)):
-                        if o[0] in ("new",) or (o[0] in ("add", "nadd", "ins", "nins") and j == 2) or (o[0] == "trav" and j < 3):
+                        if o[0] in ("new",) or (o[0] in ("add", "nadd", "ins", "nins") and j == 2) or (o[0] == "trav" and j < 3) \
+                                or (o[0] == "find" and j >= 2) or (o[0] == "next" and j == 2):
                             continue
                         if o[j].lstrip("-").isdigit() and o[j] != "-":
                             v = int(o[j])
@@ -494,7 +495,7 @@ class C14(DiffProperty):
                 continue
             unl = [x for x in alive if tr.unlinked(x)]
             kind = rng.choice(["link", "link", "unlink", "unlink", "move", "move", "clone", "clone", "clear", "destroy",
-                               "swap", "switch", "relink", "trav"])
+                               "swap", "switch", "relink", "trav", "find", "next"])
             if kind == "link" and unl:
                 self.gen_link(rng, tr, emit, pos, rng.choice(unl))
             elif kind == "unlink":
@@ -533,6 +534,12 @@ class C14(DiffProperty):
                 emit([kind, a, b])
             elif kind == "relink":
                 emit(["relink", rng.choice(alive)])
+            elif kind == "find":
+                ps = [x for x in alive if tr.kids[x]]
+                emit(["find", rng.choice(ps) if ps and rng.random() < 0.85 else rng.choice(alive),
+                      rng.choice(NAMES), pos(2)])
+            elif kind == "next":
+                emit(["next", rng.choice(alive), rng.choice(NAMES)])
             elif kind == "trav":
                 emit(["trav", rng.choice(["pre", "in", "post"]), rng.choice([1, 2, 3, 3]), rng.choice(alive)])
         return " ".join(" ".join(o) for o in ops + [["end"]])
@@ -614,6 +621,10 @@ class C14(DiffProperty):
                 for o in ("pre", "in", "post"):
                     for fl in (1, 2, 3):
                         cases.append(sh + " trav %s %d %d end" % (o, fl, x))
+                for nm in NAMES:
+                    cases.append(sh + " next %d %s end" % (x, nm))
+                    for q in range(-3, 4):
+                        cases.append(sh + " find %d %s %d end" % (x, nm, q))
         # merges of two small trees with overlapping names
         for n1 in ("a", "b"):
             for n2 in ("a", "b"):
